@@ -24,7 +24,7 @@ func init() {
 		return fmtInts(r)
 	}
 	execs["euler"] = execEuler
-	execs["rev"] = func(a []Tok) string { return fmtInts(graphalg.Reverse(a[0].Ints())) }
+	execs["rev"] = func(a []Tok) string { allowMutation(); return fmtInts(graphalg.Reverse(a[0].Ints())) }
 	execs["scc"] = execSCC
 	execs["simp"] = execSimp
 	execs["keep"] = func(a []Tok) string { return execSub(a, true) }
